@@ -122,4 +122,41 @@ inline double ulp_error(S x, std::uint64_t N, std::uint64_t D, T r) {
     return (double)(long double)(diff / (q128)std::ldexp(1.0L, ue));
 }
 
+// ---- integral source, floating target: is |x|*N/D clearly inside the range of T? ----------------------
+// (factors up to 2^64 x 64-bit sources reach 2^128 > FLT_MAX).  "Clearly": below max(T)*(1 - 8 eps); the
+// cast of x to T and the floating multiplication each round, so values closer to max(T) are a don't-care.
+template <typename T, typename S>
+inline bool int_to_fp_clearly_in_range(S x, std::uint64_t N, std::uint64_t D) {
+    const bool neg = x < 0;
+    const u128 ax = neg ? (u128)(-(i128)x) : (u128)x;
+    const q128 e = (q128)(ax * (u128)N) / (q128)(u128)D;   // |x| <= 2^64, N < 2^64: the product fits u128
+    const q128 lim = (q128)std::numeric_limits<T>::max() * ((q128)1 - (q128)8 * (q128)std::numeric_limits<T>::epsilon());
+    return e < lim;
+}
+
+// ---- floating common type: distance of the library's scaled value y from the exact x*N/D, in ulps(C) --
+// x has at most 64 significant bits, N < 2^64: the binary128 product is rounded at 2^-113 relative
+// (2^-49 ulp of long double), as is the quotient.  Returns -1 when not applicable (non-finite x or y,
+// or an exact value beyond the range of C: range questions are judged elsewhere).
+template <typename C>
+inline double fp_scale_ulps(C x, std::uint64_t N, std::uint64_t D, C y) {
+    typedef std::numeric_limits<C> L;
+    if (!finite(x) || !finite(y)) return -1.0;
+    const q128 e = (q128)(long double)x * (q128)(u128)N / (q128)(u128)D;
+    const q128 ea = e < 0 ? -e : e;
+    if (ea > (q128)L::max()) return -1.0;
+    q128 diff = (q128)(long double)y - e;
+    if (diff < 0) diff = -diff;
+    if (diff == 0) return 0.0;
+    long double big = (long double)ea;   // rounding here moves the binade by at most one ulp of long double
+    const long double ay = y < 0 ? -(long double)y : (long double)y;
+    if (ay > big) big = ay;
+    int k = 0;
+    (void)std::frexp(big, &k);
+    int ue = k - L::digits;
+    if (ue < L::min_exponent - L::digits) ue = L::min_exponent - L::digits;
+    const q128 u = diff / (q128)std::ldexp(1.0L, ue);
+    return u > (q128)1e300 ? 1e300 : (double)(long double)u;
+}
+
 }  // namespace vf5
